@@ -54,7 +54,7 @@ def make_cases(tier, seed):
         nodes, ppn = LAYOUTS[i % len(LAYOUTS)]
         target = "rarr" if i % 3 == 2 else "rmap"
         if i % 5 == 4:
-            bases, J, nops, hot = [3, 5, 9, 77, 1000, 1048575], 2, 24, 20
+            bases, J, nops, hot = [0, 3, 5, 9, 77, 1000, 1048575], 2, 24, 20
         elif i % 5 == 3:
             bases, J, nops, hot = [5, 6], 3, 36, 50
         else:
